@@ -441,7 +441,7 @@ func parent(id, level string, opt Options) {
 	cmd := exec.Command(os.Args[0], os.Args[1:]...)
 	cmd.Env = append(os.Environ(), "VERIF_CHILD=1")
 	if opt.Race {
-		cmd.Env = append(cmd.Env, "GORACE=halt_on_error=0 log_path="+racePrefix(id)+" history_size=3")
+		cmd.Env = append(cmd.Env, "GORACE=halt_on_error=0 exitcode=0 log_path="+racePrefix(id)+" history_size=3")
 	}
 	cmd.Stdout = os.Stdout
 	cmd.Stderr = errf
